@@ -711,6 +711,47 @@ def _rename(atom: ast.AST, old: str, new: str) -> ast.AST:
     return subst(atom, {old: ast.Name(id=new, ctx=ast.Load())}) if old != new else atom
 
 
+def _pairs_helper(ctx, f: Func, it: ast.AST):
+    """`for name, value in X.<helper>()` where the helper is a generator method that only yields (k, V(k)) pairs over the
+    attribute names of its receiver:
+         def helper(self): for k in self.__dict__.keys(): if not k.startswith('_'): yield k, self.__getattribute__(k)
+    -> the equivalent generator expression `((k, V) for k in X.__dict__.keys() if ..)` in terms of X, else None"""
+    it, _ = strip_seq_wrappers(it)
+    if not (isinstance(it, ast.Call) and isinstance(it.func, ast.Attribute) and not it.args and not it.keywords):
+        return None
+    ci = [c for c in ctx.cg.calls_in(f) if c.node is it or (isinstance(c.node, ast.Call) and same(c.node, it))]
+    targets = ci[0].targets if ci else []
+    if len(targets) != 1 or targets[0].kind != 'method' or len(targets[0].params) != 1:
+        return None
+    h = targets[0]
+    body = [s for s in h.body if not (isinstance(s, ast.Expr) and isinstance(s.value, ast.Constant))]
+    if len(body) != 1 or not isinstance(body[0], ast.For) or body[0].orelse:
+        return None
+    fo = body[0]
+    yields = [n for n in walk_no_nested(h.node) if isinstance(n, (ast.Yield, ast.YieldFrom))]
+    rets = [n for n in walk_no_nested(h.node) if isinstance(n, ast.Return) and n.value is not None]
+    stores = [n for n in walk_no_nested(h.node) if isinstance(n, (ast.Assign, ast.AugAssign, ast.Delete))]
+    if len(yields) != 1 or rets or stores or not isinstance(yields[0], ast.Yield) or not isinstance(yields[0].value, ast.Tuple) \
+            or len(yields[0].value.elts) != 2:
+        return None
+    cfg = cfg_of(h)
+    yn = cfg.node_containing(yields[0])
+    if yn is None or len(cfg.enclosing_fors(yn)) != 1:
+        return None
+    from sa.flow import subst
+    import copy as _copy
+    recv = {h.self_name: it.func.value}
+    ifs = []
+    for t, pol in cfg.conditions(yn):
+        t2 = subst(_copy.deepcopy(t), recv)
+        ifs.append(t2 if pol else ast.UnaryOp(op=ast.Not(), operand=t2))
+    gen = ast.GeneratorExp(elt=subst(_copy.deepcopy(yields[0].value), recv),
+                           generators=[ast.comprehension(target=_copy.deepcopy(fo.target), iter=subst(_copy.deepcopy(fo.iter), recv),
+                                                         ifs=ifs, is_async=0)])
+    ast.fix_missing_locations(gen)
+    return gen
+
+
 def _pairs_source(it: ast.AST, target: ast.AST):
     """`((k, V) for k in X.__dict__[.keys()] if C)` (generator or list) consumed by `for name, value in ...`
     -> (X, [(filter atom over `name`, True)], V with k renamed to `name`) or None"""
@@ -770,6 +811,12 @@ def _direct_copy_loops(ctx, f: Func) -> List[CopyLoop]:
             pr = _pairs_source(it_x, fo.target)
             if pr is not None:
                 # for name, value in ((k, <V(k)>) for k in X.__dict__ if <filters>): the loop of a (name, value) pair stream
+                ds = (pr[0], 'items')
+                helper_atoms, pair_value = pr[1], pr[2]
+        if ds is None:
+            gen = _pairs_helper(ctx, f, fo.iter)
+            pr = _pairs_source(gen, fo.target) if gen is not None else None
+            if pr is not None:
                 ds = (pr[0], 'items')
                 helper_atoms, pair_value = pr[1], pr[2]
         if ds is None:
@@ -1621,6 +1668,62 @@ class CloneAnalysis:
         self._uses(h, hl, h.node, None, False)
         return True
 
+    def _staged_fills(self, f: Func, L: Labeller, call, karg, varg, cn):
+        """outside tasks collected in a local staging dict first and moved into the clone map afterwards:
+               D = {};  ... D[x.id] = x / D.setdefault(x.id, x) ...;  for k, v in D.items(): map.setdefault(k, v)
+        -> the fills of D as registrations [(f, L, stmt, K, V)] (judged where they stand), or None when `call` is not such a transfer"""
+        if cn is None or not (isinstance(karg, ast.Name) and isinstance(varg, ast.Name)):
+            return None
+        fors = L.cfg.enclosing_fors(cn)
+        if len(fors) != 1:
+            return None
+        fo = fors[0]
+        m = match("$d.items()", fo.iter)
+        if not (m and isinstance(m['d'], ast.Name) and isinstance(fo.target, ast.Tuple) and len(fo.target.elts) == 2 and
+                all(isinstance(x, ast.Name) for x in fo.target.elts) and fo.target.elts[0].id == karg.id and fo.target.elts[1].id == varg.id):
+            return None
+        d = m['d'].id
+        if d == L.mapvar or d in L.map_aliases:
+            return None
+        ds = L.flow.defs_of(d)
+        if len(ds) != 1 or ds[0].kind != 'assign' or ds[0].value is None or not (
+                isinstance(ds[0].value, ast.Dict) and not ds[0].value.keys or match("dict()", ds[0].value)):
+            return None
+        hn = L.cfg.node_of(fo)
+        if hn is None or L.cfg.conditions(hn) or L.cfg.enclosing_fors(hn) or not L.cfg.dominates(hn, L.cfg.exit):
+            return None                                  # the transfer must run once, unconditionally
+        if [c for c in L.cfg.conditions(cn) if not self._absent_guard_atom(L, c, karg)]:
+            return None
+        fills = []
+        par = _parent_map(f.node)
+        for n in walk_no_nested(f.node):
+            if not (isinstance(n, ast.Name) and n.id == d):
+                continue
+            p = par.get(id(n))
+            if p is ds[0].stmt or (isinstance(p, ast.Attribute) and par.get(id(p)) is fo.iter):
+                continue
+            if isinstance(p, ast.Subscript) and p.value is n and isinstance(p.ctx, ast.Store):
+                stt = par.get(id(p))
+                if isinstance(stt, ast.Assign) and len(stt.targets) == 1 and not isinstance(p.slice, ast.Slice):
+                    fills.append((f, L, stt, p.slice, stt.value))
+                    continue
+                return None
+            if isinstance(p, ast.Attribute) and p.value is n and p.attr == 'setdefault':
+                c2 = par.get(id(p))
+                if isinstance(c2, ast.Call) and c2.func is p and len(c2.args) == 2 and not c2.keywords:
+                    fills.append((f, L, c2, c2.args[0], c2.args[1]))
+                    continue
+                return None
+            if isinstance(p, ast.Compare) or (isinstance(p, ast.Subscript) and isinstance(p.ctx, ast.Load)):
+                continue                                 # membership tests / reads of the staging dict
+            return None
+        return fills if fills else None
+
+    def _absent_guard_atom(self, L: Labeller, cond, key: ast.AST) -> bool:
+        t, pol = cond
+        m = match("$k not in $m", t) if pol else match("$k in $m", t)
+        return bool(m and L.is_map(m['m']) and same(m['k'], key))
+
     def _absent_guard(self, L: Labeller, st: ast.stmt, key: ast.AST) -> bool:
         """the statement runs only under `<key> not in <clone map>` (for the same key expression)"""
         cn = L.cfg.node_of(st)
@@ -1659,8 +1762,15 @@ class CloneAnalysis:
         self._uses(self.f, self.L, self.f.node, None, False)
         covered = {}
         unknown_cov = False
-        for f, L, call, karg, varg in self.setdefaults:
+        partial = {}
+        work = list(self.setdefaults)
+        while work:
+            f, L, call, karg, varg = work.pop(0)
             cn = L.node(call)
+            staged = self._staged_fills(f, L, call, karg, varg, cn)
+            if staged is not None:
+                work = staged + work           # judge the registrations where the staging dict is filled
+                continue
             k, v = L.expand(karg, cn), L.expand(varg, cn)
             mk = match("$x.id", k)
             vl = L.lab(v, cn, {})
@@ -1738,6 +1848,12 @@ class CloneAnalysis:
                         covered.setdefault(r, call)
                     elif tl.kind != 'SRC':
                         unknown_cov = True
+                    else:
+                        where = L.short(t_expr)
+                        for fo in fors:
+                            if isinstance(fo.target, ast.Name) and isinstance(t_expr, ast.Name) and fo.target.id == t_expr.id:
+                                where = f"{t_expr.id} in {src(fo.iter)[:50]}"
+                        partial.setdefault(r, (where, full_selection(tl)))
                 for _, r in rel:
                     self.site(f, call, note + f" for x in <selected>.{r}")
             else:
@@ -1750,8 +1866,9 @@ class CloneAnalysis:
                     self.undecided(f, f.node, f"outside {r}", f"cannot show that the {r} of every selected task are scanned for "
                                                               f"tasks outside the source WBS")
                 elif r not in covered:
+                    why = f" (the scan runs over `{partial[r][0]}` only: {partial[r][1]})" if r in partial else ""
                     self.refute(f, f.node, f"outside {r}", f"no `setdefault(x.id, x)` under `x.wbs != self` scans the {r} of every "
-                                                           f"selected task: {r} that live outside the source WBS never enter the clone "
+                                                           f"selected task{why}: {r} that live outside the source WBS never enter the clone "
                                                            f"map, so those links are dropped instead of being kept")
 
     # ---------------------------------------------------------------- (c) + (d) relation rebuild
